@@ -119,12 +119,32 @@ def check(ctx, rule):
     pinfo, sinfo, inv = invalidating(ctx)
     n = 0
     for cname, info in (("Path", pinfo), ("Subpath", sinfo)):
+        called = {callee for i in info.values() for who, callee in i["callees"] if who == "self"}
+
+        def private(name):
+            return name.startswith("_") and not (name.startswith("__") and name.endswith("__"))
+
+        # a private helper that edits the list without invalidating is judged at its callers: the edit is theirs
+        eff = {name: list(i["writes"]) for name, i in info.items()}
+        changed = True
+        while changed:
+            changed = False
+            for name, i in info.items():
+                for who, callee in i["callees"]:
+                    if who == "self" and callee in info and private(callee) and (cname, callee) not in inv:
+                        for w in eff[callee]:
+                            tag = "%s (in %s)" % (w, callee) if "(in " not in w else w
+                            if tag not in eff[name]:
+                                eff[name].append(tag)
+                                changed = True
         for name in sorted(info):
             i = info[name]
-            if not i["writes"] or name == "__init__":
+            if not eff[name] or name == "__init__":
+                continue
+            if private(name) and name in called and (cname, name) not in inv:
                 continue
             n += 1
-            ctx.ob(rule, "%s.%s" % (cname, name), (cname, name) in inv, "; ".join(i["writes"][:3]), i["line"],
+            ctx.ob(rule, "%s.%s" % (cname, name), (cname, name) in inv, "; ".join(eff[name][:3]), i["line"],
                    "the method changes the segments the cached length/fractions were computed from but does not invalidate them "
                    "(a later length()/point(t) uses stale data)")
     return n
